@@ -135,10 +135,10 @@ def correspond(ctx):
     contract_ctx = ContractContext(args=cargs, name="T", funsigs=[], creation_hexcode="", deployed_hexcode="", abi={},
                                    method_identifiers={}, contract_json={}, libs={}, build_out_map={})
 
-    def label_through_callback(stdout, pid):
+    def label_through_callback(stdout, pid, refined=False):
         """run the real from_result and the real _solve_end_to_end_callback; return (kind, is_valid, which list)"""
         fctx = FunctionContext(args=cargs, info=FunctionInfo("T", "test", "test()", "f8a8fd6d"), solver=None, contract_ctx=contract_ctx)
-        pc = K.path_ctx(cargs, pid, fctx.solving_ctx, SMTQuery("", []))
+        pc = K.path_ctx(cargs, pid, fctx.solving_ctx, SMTQuery("", []), refined=refined)
         so = SolverOutput.from_result(stdout, "stderr-text", 0, pc)
         fctx.call_sequences[pid] = ""
         handler = CounterexampleHandler(ctx=fctx, is_invariant=False, is_probe=False, flamegraph_enabled=False,
@@ -197,6 +197,16 @@ def correspond(ctx):
                     ctx.violation("label:counterexample-variable-not-printed", v.full_name, {"kind": "output", "stdout": stdout})
         elif where != "none":
             ctx.violation("label:non-sat-answer-produces-counterexample", f"{kind}/{where}", {"kind": "output", "stdout": stdout})
+        # the same answer as the answer to a *refined* query (PathContext.is_refined): refine() has no pattern for f_evm_exp_256, so a
+        # refined model may still interpret an abstraction and must then stay "potentially invalid" (Props.C04.abstract_never_valid)
+        if kind == "sat":
+            so_r, kind_r, where_r, _ = label_through_callback(stdout, rng.randrange(10**6), refined=True)
+            ctx.count(f"result-refined:{kind_r}:{where_r}:{'abstraction' if 'f_evm_' in stdout else 'clean'}")
+            if "f_evm_" in stdout and (where_r != "invalid" or so_r.model.is_valid):
+                ctx.violation("label:refined-model-mentioning-abstraction-marked-valid",
+                              f"is_refined=True, is_valid={so_r.model.is_valid}, list={where_r}: {stdout[:200]!r}", {"kind": "output", "stdout": stdout, "refined": True})
+            if "f_evm_" not in stdout and where_r != "valid":
+                ctx.violation("label:refined-clean-model-not-marked-valid", f"{where_r}: {stdout[:160]!r}", {"kind": "output", "stdout": stdout, "refined": True})
         if forced is not None and kind == "sat":
             got = {n: (s, v) for n, _, _, _, s, v in mv}
             for name, (w, v) in forced.items():
@@ -254,6 +264,69 @@ def correspond(ctx):
     for sname, cmd in solvers:
         check_output(subprocess.run(cmd + [str(tmp / "u.smt2")], capture_output=True, text=True).stdout, None, sname)
 
+    # real refinement loop: conditions with a symbolic exp and another refinable operator through the real
+    # Path.to_smt2 -> solve_end_to_end (first query, refine, second query) -> callback, with yices and z3
+    from halmos.__main__ import mk_solver
+    from halmos.sevm import Path, f_div, f_exp, f_mod, f_mul
+    from halmos.solve import solve_end_to_end
+    import z3 as Z
+
+    hx, hy = Z.BitVec("halmos_x_uint256_00", 256), Z.BitVec("halmos_y_uint256_00", 256)
+
+    def bv(n):
+        return Z.BitVecVal(n, 256)
+
+    e2e_cases = [
+        ("exp+mul", [f_exp(hx, hy) == bv(0), f_mul[256](hx, hy) == bv(15), (hx & bv(1)) == bv(1)]),
+        ("exp+div", [f_exp(hx, hy) == bv(7), f_div(hx, hy) == bv(3), Z.ULT(hx, bv(100))]),
+        ("exp+mod", [f_exp(hx, bv(3)) == bv(5), f_mod[256](hx, hy) == bv(2), hy == bv(5), Z.ULT(hx, bv(1000))]),
+        ("mul-only", [f_mul[256](hx, hy) == bv(15), hx == bv(3)]),
+        ("div-only", [f_div(hx, hy) == bv(3), hy == bv(0)]),
+        ("exp-only", [f_exp(hx, hy) == bv(9)]),
+    ]
+    for cname, conds in e2e_cases:
+        for sname, scmd in (("yices", f"{yices} --smt2-model-format --bvconst-in-decimal"), ("z3", z3bin)):
+            eargs = eng.args(solver_command=scmd, solver_timeout_assertion=8.0)
+            fctx = FunctionContext(args=eargs, info=FunctionInfo("T", "test", "test()", "f8a8fd6d"), solver=None, contract_ctx=contract_ctx)
+            p = Path(mk_solver(eargs))
+            for c in conds:
+                p.append(c)
+            pid = rng.randrange(10**6)
+            pc = K.path_ctx(eargs, pid, fctx.solving_ctx, p.to_smt2(eargs))
+            out = solve_end_to_end(pc)
+            refined_out = FsPath(str(pc.refine().dump_file) + ".out")
+            first_out = FsPath(str(pc.dump_file) + ".out")
+            was_refined = refined_out.exists()
+            stdout = (refined_out if was_refined else first_out).read_text() if (was_refined or first_out.exists()) else ""
+            fctx.call_sequences[pid] = ""
+            handler = CounterexampleHandler(ctx=fctx, is_invariant=False, is_probe=False, flamegraph_enabled=False,
+                                            potential_flamegraphs={}, submitted_futures=[])
+            fut = Future()
+            fut.set_result(out)
+            with contextlib.redirect_stdout(io.StringIO()), contextlib.redirect_stderr(io.StringIO()):
+                handler._solve_end_to_end_callback(fut, ex=None, path_ctx=pc, description=None)
+            where = "valid" if fctx.valid_counterexamples else "invalid" if fctx.invalid_counterexamples else "none"
+            kind = out.result if isinstance(out.result, str) else str(out.result)
+            ctx.case(f"e2e|{cname}|{sname}")
+            ctx.count(f"e2e:{cname}:{sname}:{kind}:{'refined' if was_refined else 'first'}:{where}:{'abstraction' if 'f_evm_' in stdout else 'clean'}")
+            if kind == "sat":
+                if "f_evm_" in stdout and (where != "invalid" or out.model.is_valid):
+                    ctx.violation("label:refined-model-mentioning-abstraction-marked-valid" if was_refined else "label:model-mentioning-abstraction-not-marked-invalid",
+                                  f"{cname} ({sname}): the {'refined' if was_refined else 'first'} query's model still interprets an abstraction but is "
+                                  f"labelled {where} (is_valid={out.model.is_valid}): {stdout[:260]!r}",
+                                  {"kind": "e2e", "case": cname, "solver": sname, "stdout": stdout})
+                if "f_evm_" not in stdout and where != "valid":
+                    ctx.violation("label:clean-model-not-marked-valid", f"{cname} ({sname}): {where}: {stdout[:200]!r}", {"kind": "e2e", "case": cname})
+                if cname in ("mul-only", "div-only") and not was_refined:
+                    ctx.violation("refine:loop-did-not-refine", f"{cname} ({sname})", {"kind": "e2e", "case": cname})
+                # the refined answer goes through the Lean model too
+                reqs.append((f"result {hexs(stdout)}", f"sat {0 if 'f_evm_' in stdout else 1}", f"result[e2e {cname} {sname}]"))
+            fctx.thread_pool.shutdown(wait=False)
+            with contextlib.suppress(Exception):
+                fctx.solving_ctx.executor.shutdown(wait=False)
+            with contextlib.suppress(Exception):
+                fctx.solving_ctx.dump_dir.cleanup()
+
     # synthetic outputs
     def blank():
         return "".join(rng.choice([" ", " ", "\n", "\t", "  ", "\n    ", "\r\n"]) for _ in range(rng.randrange(1, 3)))
@@ -292,16 +365,19 @@ def correspond(ctx):
 
     # ---------------------------------------------------------------- Lean
     replies = ctx.lean("ModelParse").ask([r for r, _, _ in reqs])
+    mismatches = []
     for (req, exp, label), got in zip(reqs, replies):
         if isinstance(exp, tuple):
             ok = lean_vars(got) == exp[1]
         else:
             ok = got == exp
         if not ok:
-            raise RuntimeError(f"Lean model and implementation disagree on {label}: request {req[:160]}\n  impl : {exp}\n  model: {got[:600]}")
+            mismatches.append(f"{label}: request {req[:160]}\n  impl : {exp}\n  model: {got[:600]}")
     ctx.note(f"lean requests: {len(reqs)}; widths: {len(widths)}")
     shutil.rmtree(tmp, ignore_errors=True)
     logging.disable(logging.NOTSET)
+    if mismatches:
+        raise RuntimeError(f"Lean model and implementation disagree on {len(mismatches)} case(s); first: " + mismatches[0])
 
 
 def replay(ctx, data) -> bool:
